@@ -329,14 +329,24 @@ proof fn lemma_scan_step<V>(n: NfaBuilder<u8, V>, hay: Seq<u8>, k: nat)
         &&& t == nfa_nd(n, ls(n, hay.take(k as int)), hay[k as int])
         &&& chain(n.outputs@, opt_n(n.states@[t].output_pos), k + 1) == suf_matches(n, hay.take(k as int + 1), 0, k + 1) }),
 {
+    lemma_scan_step_e(n, hay, k, k + 1);
+}
+// the same with an arbitrary end offset stamped on the matches
+proof fn lemma_scan_step_e<V>(n: NfaBuilder<u8, V>, hay: Seq<u8>, k: nat, end: nat)
+    requires nfa_tree(n), trie_ok(n), nfa_links(n, false), ac_fail(n), ac_outs(n), k < hay.len(),
+    ensures ({ let t = ls(n, hay.take(k as int + 1));
+        &&& 0 <= t < n.states@.len() && t != 1
+        &&& t == nfa_nd(n, ls(n, hay.take(k as int)), hay[k as int])
+        &&& chain(n.outputs@, opt_n(n.states@[t].output_pos), end) == suf_matches(n, hay.take(k as int + 1), 0, end) }),
+{
     let w = hay.take(k as int); let w2 = hay.take(k as int + 1);
     assert(w2.drop_last() =~= w && w2.last() == hay[k as int]);
     let t = ls(n, w2);
     lemma_ls(n, w2);
     lemma_ls_range(n, w2, t);
     lemma_ls_len(n, w2, t);
-    lemma_ac_outs(n, t, k + 1);
-    lemma_suf_longest(n, w2, t, 0, k + 1);
+    lemma_ac_outs(n, t, end);
+    lemma_suf_longest(n, w2, t, 0, end);
 }
 
 // AC correctness on the NFA: scanning hay[k..] from the state reached on hay[..k] reports exactly the semantics
@@ -385,4 +395,250 @@ proof fn theorem_c01_bw<V>(n: NfaBuilder<u8, V>, st: Seq<State>, idmap: Seq<u32>
     assert(hay.skip(0) =~= hay);
     assert(ls(n, hay.take(0)) == 0);
     lemma_nfa_scan_sem(n, hay, 0);
+}
+
+//@include ghost_nfa_outs.rs
+// ---- C05: the no-suffix search reports, at every end position where some pattern ends, exactly the longest one ----
+spec fn first_of<V>(s: Seq<Match<V>>) -> Seq<Match<V>> { if s.len() == 0 { Seq::empty() } else { seq![s[0]] } }
+spec fn sem_nosuf<V>(n: NfaBuilder<u8, V>, hay: Seq<u8>, k: nat) -> Seq<Match<V>>
+    decreases hay.len() - k
+{
+    if k >= hay.len() { Seq::empty() } else { first_of(suf_matches(n, hay.take(k as int + 1), 0, k + 1)) + sem_nosuf(n, hay, k + 1) }
+}
+// output positions are valid list heads (part of the assumed contract of build_outputs, nfa_outs_ok)
+proof fn lemma_chain_head<V>(outs: Seq<Output<V>>, o: nat, end: nat)
+    requires o <= outs.len(), forall|j: int| 0 <= j < outs.len() ==> out_parent(#[trigger] outs[j]) <= j,
+    ensures o == 0 ==> chain(outs, o, end).len() == 0,
+        o != 0 ==> chain(outs, o, end).len() > 0 && chain(outs, o, end)[0] == mk_match(outs[o - 1], end),
+{
+    if o != 0 {
+        assert(out_parent(outs[o - 1]) <= o - 1);
+    }
+}
+spec fn nfa_nosuf_scan<V>(n: NfaBuilder<u8, V>, s: int, rest: Seq<u8>, k: nat) -> Seq<Match<V>>
+    decreases rest.len()
+{
+    if rest.len() == 0 { Seq::empty() } else {
+        let t = nfa_nd(n, s, rest[0]);
+        first_of(chain(n.outputs@, opt_n(n.states@[t].output_pos), k + 1)) + nfa_nosuf_scan(n, t, rest.skip(1), k + 1)
+    }
+}
+proof fn lemma_nfa_nosuf_sem<V>(n: NfaBuilder<u8, V>, hay: Seq<u8>, k: nat)
+    requires nfa_tree(n), trie_ok(n), nfa_links(n, false), ac_fail(n), ac_outs(n), k <= hay.len(),
+    ensures nfa_nosuf_scan(n, ls(n, hay.take(k as int)), hay.skip(k as int), k) == sem_nosuf(n, hay, k),
+    decreases hay.len() - k,
+{
+    let rest = hay.skip(k as int);
+    if k < hay.len() {
+        assert(rest.len() > 0 && rest[0] == hay[k as int]);
+        assert(rest.skip(1) =~= hay.skip(k as int + 1));
+        lemma_scan_step(n, hay, k);
+        lemma_nfa_nosuf_sem(n, hay, k + 1);
+    } else {
+        assert(rest.len() == 0);
+    }
+}
+proof fn lemma_nosuf_scan_sim<V>(n: NfaBuilder<u8, V>, st: Seq<State>, idmap: Seq<u32>, s: int, rest: Seq<u8>, k: nat)
+    requires bw_encodes(st, n, idmap), nfa_tree(n), nfa_links(n, false), da_safe(st), nfa_outs_ok(n), 0 <= s < n.states@.len(), s != 1,
+    ensures nosuf_scan(st, n.outputs@, idmap[s] as int, rest, k) == nfa_nosuf_scan(n, s, rest, k),
+    decreases rest.len(),
+{
+    if rest.len() > 0 {
+        let t = nfa_nd(n, s, rest[0]);
+        lemma_sim_delta(n, st, idmap, s, rest[0]);
+        lemma_nd_range(n, s, rest[0]);
+        lemma_benc_basic(st, n, idmap, t);
+        let o = opt_n(n.states@[t].output_pos);
+        assert(st_opos(st[idmap[t] as int]) as nat == o);
+        assert(o <= n.outputs@.len()) by { assert(opt_u32(n.states@[t].output_pos) <= n.outputs@.len()); }
+        lemma_chain_head(n.outputs@, o, k + 1);
+        lemma_nosuf_scan_sim(n, st, idmap, t, rest.skip(1), k + 1);
+    }
+}
+proof fn theorem_c05_bw<V>(n: NfaBuilder<u8, V>, st: Seq<State>, idmap: Seq<u32>, hay: Seq<u8>)
+    requires bw_encodes(st, n, idmap), da_safe(st), nfa_tree(n), trie_ok(n), nfa_links(n, false), nfa_outs_ok(n), ac_fail(n), ac_outs(n),
+    ensures nosuf_scan(st, n.outputs@, 0, hay, 0) == sem_nosuf(n, hay, 0),
+{
+    lemma_benc_basic(st, n, idmap, 0);
+    lemma_nosuf_scan_sim(n, st, idmap, 0, hay, 0);
+    assert(hay.take(0) =~= Seq::<u8>::empty());
+    assert(hay.skip(0) =~= hay);
+    assert(ls(n, hay.take(0)) == 0);
+    lemma_nfa_nosuf_sem(n, hay, 0);
+}
+
+// ---- C02: the non-overlapping search reports the occurrence (inside the unread text) that ends first, the longest one
+// if several end there, and resumes after it ----
+// first j >= from such that some registered pattern is a suffix of rest[..j]
+spec fn sem_first<V>(n: NfaBuilder<u8, V>, rest: Seq<u8>, from: nat) -> Option<nat>
+    decreases rest.len() + 1 - from
+{
+    if from > rest.len() { None }
+    else if from > 0 && suf_matches(n, rest.take(from as int), 0, from).len() > 0 { Some(from) }
+    else { sem_first(n, rest, from + 1) }
+}
+spec fn sem_find<V>(n: NfaBuilder<u8, V>, rest: Seq<u8>, k: nat) -> Seq<Match<V>>
+    decreases rest.len()
+{
+    match sem_first(n, rest, 1) {
+        None => Seq::empty(),
+        Some(j) => if j == 0 || j > rest.len() { Seq::empty() } else {
+            seq![suf_matches(n, rest.take(j as int), 0, k + j)[0]] + sem_find(n, rest.skip(j as int), k + j)
+        },
+    }
+}
+// the number of matches at a position does not depend on the end offset stamped on them
+proof fn lemma_suf_len<V>(n: NfaBuilder<u8, V>, p: Seq<u8>, i: nat, e1: nat, e2: nat)
+    ensures suf_matches(n, p, i, e1).len() == suf_matches(n, p, i, e2).len(),
+    decreases p.len() - i,
+{
+    if i < p.len() { lemma_suf_len(n, p, i + 1, e1, e2); }
+}
+// first reporting position of the scan over the NFA (same shape as find_first over the array)
+spec fn nfa_find_first<V>(n: NfaBuilder<u8, V>, s: int, rest: Seq<u8>, cnt: nat) -> Option<(nat, int)>
+    decreases rest.len()
+{
+    if rest.len() == 0 { None } else {
+        let t = nfa_nd(n, s, rest[0]);
+        if opt_n(n.states@[t].output_pos) != 0 { Some((cnt + 1, t)) } else { nfa_find_first(n, t, rest.skip(1), cnt + 1) }
+    }
+}
+proof fn lemma_find_first_sim<V>(n: NfaBuilder<u8, V>, st: Seq<State>, idmap: Seq<u32>, s: int, rest: Seq<u8>, cnt: nat)
+    requires bw_encodes(st, n, idmap), nfa_tree(n), nfa_links(n, false), da_safe(st), 0 <= s < n.states@.len(), s != 1,
+    ensures find_first(st, idmap[s] as int, rest, cnt) == (match nfa_find_first(n, s, rest, cnt) { None => None::<(nat, int)>, Some(p) => Some((p.0, idmap[p.1] as int)) }),
+        nfa_find_first(n, s, rest, cnt).is_some() ==> 0 <= nfa_find_first(n, s, rest, cnt).unwrap().1 < n.states@.len() && nfa_find_first(n, s, rest, cnt).unwrap().1 != 1,
+    decreases rest.len(),
+{
+    if rest.len() > 0 {
+        let t = nfa_nd(n, s, rest[0]);
+        lemma_sim_delta(n, st, idmap, s, rest[0]);
+        lemma_nd_range(n, s, rest[0]);
+        lemma_benc_basic(st, n, idmap, t);
+        assert(st_opos(st[idmap[t] as int]) as nat == opt_n(n.states@[t].output_pos));
+        lemma_find_first_sim(n, st, idmap, t, rest.skip(1), cnt + 1);
+    }
+}
+// all hypotheses about the NFA in one opaque bundle (keeps the contexts of the inductive lemmas small)
+#[verifier::opaque]
+spec fn ac_ctx<V>(n: NfaBuilder<u8, V>) -> bool {
+    nfa_tree(n) && trie_ok(n) && nfa_links(n, false) && nfa_outs_ok(n) && ac_fail(n) && ac_outs(n)
+}
+proof fn w_scan_step_e<V>(n: NfaBuilder<u8, V>, hay: Seq<u8>, k: nat, end: nat)
+    requires ac_ctx(n), k < hay.len(),
+    ensures ({ let t = ls(n, hay.take(k as int + 1));
+        &&& 0 <= t < n.states@.len() && t != 1
+        &&& t == nfa_nd(n, ls(n, hay.take(k as int)), hay[k as int])
+        &&& chain(n.outputs@, opt_n(n.states@[t].output_pos), end) == suf_matches(n, hay.take(k as int + 1), 0, end) }),
+{
+    reveal(ac_ctx);
+    lemma_scan_step_e(n, hay, k, end);
+}
+proof fn w_chain_head<V>(n: NfaBuilder<u8, V>, t: int, end: nat)
+    requires ac_ctx(n), 0 <= t < n.states@.len(),
+    ensures ({ let o = opt_n(n.states@[t].output_pos); let c = chain(n.outputs@, o, end);
+        &&& o <= n.outputs@.len()
+        &&& (o == 0 ==> c.len() == 0)
+        &&& (o != 0 ==> c.len() > 0 && c[0] == mk_match(n.outputs@[o - 1], end)) }),
+{
+    reveal(ac_ctx);
+    let o = opt_n(n.states@[t].output_pos);
+    assert(o <= n.outputs@.len()) by { assert(opt_u32(n.states@[t].output_pos) <= n.outputs@.len()); }
+    lemma_chain_head(n.outputs@, o, end);
+}
+
+// the scan from the root over `rest`, resumed at offset j, finds the semantic first position
+proof fn lemma_nfa_find_first_sem<V>(n: NfaBuilder<u8, V>, rest: Seq<u8>, j: nat)
+    requires ac_ctx(n), j <= rest.len(),
+    ensures (match nfa_find_first(n, ls(n, rest.take(j as int)), rest.skip(j as int), j) {
+            None => sem_first(n, rest, j + 1).is_none(),
+            Some(p) => sem_first(n, rest, j + 1) == Some(p.0) && j < p.0 <= rest.len() && p.1 == ls(n, rest.take(p.0 as int)),
+        }),
+    decreases rest.len() - j,
+{
+    let r = rest.skip(j as int);
+    if j < rest.len() {
+        assert(r.len() > 0 && r[0] == rest[j as int]);
+        assert(r.skip(1) =~= rest.skip(j as int + 1));
+        w_scan_step_e(n, rest, j, j + 1);
+        let t = ls(n, rest.take(j as int + 1));
+        w_chain_head(n, t, j + 1);
+        lemma_nfa_find_first_sem(n, rest, j + 1);
+    } else {
+        assert(r.len() == 0);
+    }
+}
+spec fn nfa_find_stream<V>(n: NfaBuilder<u8, V>, rest: Seq<u8>, k: nat) -> Seq<Match<V>>
+    decreases rest.len()
+{
+    match nfa_find_first(n, 0, rest, 0) {
+        None => Seq::empty(),
+        Some(p) => if p.0 == 0 || p.0 > rest.len() { Seq::empty() } else {
+            seq![mk_match(n.outputs@[opt_n(n.states@[p.1].output_pos) - 1], k + p.0)] + nfa_find_stream(n, rest.skip(p.0 as int), k + p.0)
+        },
+    }
+}
+// the match reported at the first position: the longest registered suffix of rest[..j]
+proof fn lemma_find_head<V>(n: NfaBuilder<u8, V>, rest: Seq<u8>, j: nat, end: nat)
+    requires ac_ctx(n), 0 < j <= rest.len(), suf_matches(n, rest.take(j as int), 0, j).len() > 0,
+    ensures ({ let t = ls(n, rest.take(j as int)); let o = opt_n(n.states@[t].output_pos);
+        o != 0 && o <= n.outputs@.len() && mk_match(n.outputs@[o - 1], end) == suf_matches(n, rest.take(j as int), 0, end)[0] }),
+{
+    let t = ls(n, rest.take(j as int));
+    w_scan_step_e(n, rest, (j - 1) as nat, end);
+    w_chain_head(n, t, end);
+    lemma_suf_len(n, rest.take(j as int), 0, j, end);
+}
+proof fn lemma_first_facts<V>(n: NfaBuilder<u8, V>, rest: Seq<u8>, from: nat)
+    ensures sem_first(n, rest, from).is_some() ==> ({ let j = sem_first(n, rest, from).unwrap();
+        from <= j <= rest.len() && j > 0 && suf_matches(n, rest.take(j as int), 0, j).len() > 0 }),
+    decreases rest.len() + 1 - from,
+{
+    if from > rest.len() { }
+    else if from > 0 && suf_matches(n, rest.take(from as int), 0, from).len() > 0 { }
+    else { lemma_first_facts(n, rest, from + 1); }
+}
+proof fn lemma_nfa_find_sem<V>(n: NfaBuilder<u8, V>, rest: Seq<u8>, k: nat)
+    requires ac_ctx(n),
+    ensures nfa_find_stream(n, rest, k) == sem_find(n, rest, k),
+    decreases rest.len(),
+{
+    assert(rest.take(0) =~= Seq::<u8>::empty());
+    assert(rest.skip(0) =~= rest);
+    assert(ls(n, rest.take(0)) == 0);
+    lemma_nfa_find_first_sem(n, rest, 0);
+    match nfa_find_first(n, 0, rest, 0) {
+        None => { }
+        Some(p) => {
+            let j = p.0;
+            lemma_first_facts(n, rest, 1);
+            lemma_find_head(n, rest, j, k + j);
+            lemma_nfa_find_sem(n, rest.skip(j as int), k + j);
+        }
+    }
+}
+proof fn lemma_find_stream_sim<V>(n: NfaBuilder<u8, V>, st: Seq<State>, idmap: Seq<u32>, rest: Seq<u8>, k: nat)
+    requires bw_encodes(st, n, idmap), nfa_tree(n), nfa_links(n, false), da_safe(st),
+    ensures find_stream(st, n.outputs@, rest, k) == nfa_find_stream(n, rest, k),
+    decreases rest.len(),
+{
+    lemma_benc_basic(st, n, idmap, 0);
+    lemma_find_first_sim(n, st, idmap, 0, rest, 0);
+    match nfa_find_first(n, 0, rest, 0) {
+        None => { }
+        Some(p) => {
+            if !(p.0 == 0 || p.0 > rest.len()) {
+                lemma_benc_basic(st, n, idmap, p.1);
+                assert(st_opos(st[idmap[p.1] as int]) as nat == opt_n(n.states@[p.1].output_pos));
+                lemma_find_stream_sim(n, st, idmap, rest.skip(p.0 as int), k + p.0);
+            }
+        }
+    }
+}
+proof fn theorem_c02_bw<V>(n: NfaBuilder<u8, V>, st: Seq<State>, idmap: Seq<u32>, hay: Seq<u8>)
+    requires bw_encodes(st, n, idmap), da_safe(st), nfa_tree(n), trie_ok(n), nfa_links(n, false), nfa_outs_ok(n), ac_fail(n), ac_outs(n),
+    ensures find_stream(st, n.outputs@, hay, 0) == sem_find(n, hay, 0),
+{
+    lemma_find_stream_sim(n, st, idmap, hay, 0);
+    assert(ac_ctx(n)) by { reveal(ac_ctx); }
+    lemma_nfa_find_sem(n, hay, 0);
 }
